@@ -54,6 +54,10 @@ def find_memo_sites(model, ctx=None):
             if g is not None and getattr(g, 'inlined', None):
                 f = g
         funcs.append(f)
+    # a private helper that was inlined into its callers is judged there, in the context of the call
+    # (its parameters are the caller's expressions: a key derived from the key, an owner, ...)
+    inlined = {q for f in funcs for q in (getattr(f, 'inlined', None) or ())}
+    funcs = [f for f in funcs if not (f.qual in inlined and f.name.startswith('_') and not getattr(f, 'inlined', None))]
     for f in funcs:
         if f.kind == 'cached_property':
             rets = [n for n in walk_no_nested(f.node) if isinstance(n, ast.Return) and n.value is not None]
